@@ -18,9 +18,72 @@ import (
 
 const verifC09Sub = "ed25519.pointR1.FromBytes"
 
+// verifC09Used decodes b into a zero pointR1 and into one that already holds a point (base point,
+// identity, an unnormalised double, the remains of a rejected decode): the verdict and the decoded
+// value (ToBytes, affine x and y) must not depend on what the receiver held.
+func verifC09Used(t vlib.TB, b []byte) {
+	sub := verifC09Sub
+	type obs struct {
+		ok       bool
+		pan      interface{}
+		enc, x, y []byte
+	}
+	look := func(P *pointR1) (o obs) {
+		o.pan, _ = vlib.Catch(func() {
+			o.ok = P.FromBytes(b)
+			if o.ok {
+				o.enc = make([]byte, 32)
+				_ = P.ToBytes(o.enc)
+				o.x, o.y = append([]byte{}, P.x[:]...), append([]byte{}, P.y[:]...)
+			}
+		})
+		return o
+	}
+	fresh := look(new(pointR1))
+	states := []string{"base-point", "identity", "double(unnormalised)", "after-rejected-decode", "same-input-twice"}
+	st := int(vlib.Hash64([]byte("recv"), b) % uint64(len(states)))
+	up := new(pointR1)
+	base := decode.Ed25519Encode(decode.B25519)
+	switch st {
+	case 0:
+		up.FromBytes(base)
+	case 1:
+		up.SetIdentity()
+	case 2:
+		up.FromBytes(base)
+		up.double()
+	case 3:
+		up.FromBytes(base)
+		g := make([]byte, 32)
+		for i := range g {
+			g[i] = 0xff
+		}
+		up.FromBytes(g)
+	default:
+		up.FromBytes(b)
+	}
+	used := look(up)
+	vlib.Class(sub, "used-receiver state="+states[st])
+	if fresh.pan != nil {
+		return
+	}
+	detail := fmt.Sprintf("receiver state=%s input=%x fresh={ok=%v enc=%x} used={ok=%v enc=%x x=%x panic=%v}", states[st], b, fresh.ok, fresh.enc, used.ok, used.enc, used.x, used.pan)
+	switch {
+	case used.pan != nil:
+		vlib.Report(t, "C09/receiver/ed25519.FromBytes/panics-with-used-receiver", detail)
+	case used.ok != fresh.ok:
+		vlib.Report(t, "C09/receiver/ed25519.FromBytes/verdict-differs", detail)
+	case used.ok && !(bytes.Equal(used.enc, fresh.enc) && bytes.Equal(used.x, fresh.x) && bytes.Equal(used.y, fresh.y)):
+		vlib.Report(t, "C09/receiver/ed25519.FromBytes/value-differs", detail)
+	case used.ok:
+		vlib.Class(sub, "used-receiver accepted: compared with fresh decode")
+	}
+}
+
 func verifC09Check(t vlib.TB, b []byte, kind string, valid bool) {
 	sub := verifC09Sub
 	vlib.Eval(sub)
+	verifC09Used(t, b)
 	var P pointR1
 	var accepted bool
 	if pn, _ := vlib.Catch(func() { accepted = P.FromBytes(b) }); pn != nil {
